@@ -1023,12 +1023,16 @@ func checkOffsetStores(c *Ctx, rule string, only map[string]bool) {
 		{"(*File).Write", "offset += n returned by writeAt(b, f.offset)", plusResult("writeAt", 0)},
 		{"(*File).writeToSequential", "offset += n returned by readChunkAt(…, f.offset)", plusResult("readChunkAt", 0)},
 		{"(*File).ReadFrom", "offset += m returned by writeChunkAt(…, f.offset)", plusResult("writeChunkAt", 0)},
-		{"(*File).WriteTo", "offset = packet.off + len(packet.b)", func(st *ssa.Store) bool {
+		{"(*File).WriteTo", "offset = packet.off + len(packet.b) for a chunk that carries data (or offset += len(packet.b))", func(st *ssa.Store) bool {
 			t := affineOf(st.Val)
 			if len(t.coef) != 2 || t.c != 0 {
 				return false
 			}
-			hasOff, hasLen := false, false
+			hasOff, hasLen, accum := false, false, false
+			lenKey := ""
+			if ok, has := offKey(t); has && t.coef[ok] == 1 {
+				accum = true // f.offset += len(packet.b): counts exactly the bytes obtained
+			}
 			for k, v := range t.coef {
 				if v != 1 {
 					return false
@@ -1038,9 +1042,38 @@ func checkOffsetStores(c *Ctx, rule string, only map[string]bool) {
 				}
 				if strings.HasPrefix(k, "len(") && strings.HasSuffix(k, ".b)") {
 					hasLen = true
+					lenKey = k
 				}
 			}
-			return hasOff && hasLen
+			if accum && hasLen {
+				return true
+			}
+			if !(hasOff && hasLen) {
+				return false
+			}
+			// packet.off is the chunk's position on the request grid (start + i*chunkSize), not the end of the
+			// previous chunk: the terminating empty chunk (EOF) lies one or more strides beyond the last byte
+			// after a short read.  The cursor may therefore only be moved by a chunk that carries data.
+			for cv, truth := range edgeConds(st.Block(), nil) {
+				b, ok := cv.(*ssa.BinOp)
+				if !ok {
+					continue
+				}
+				x, y := affineOf(b.X), affineOf(b.Y)
+				isLen := func(a term) bool { return len(a.coef) == 1 && a.c == 0 && a.coef[lenKey] == 1 }
+				isZero := func(a term) bool { return len(a.coef) == 0 && a.c == 0 }
+				switch {
+				case isLen(x) && isZero(y):
+					if (truth && (b.Op == token.GTR || b.Op == token.NEQ)) || (!truth && (b.Op == token.LEQ || b.Op == token.EQL)) {
+						return true
+					}
+				case isZero(x) && isLen(y):
+					if (truth && (b.Op == token.LSS || b.Op == token.NEQ)) || (!truth && (b.Op == token.GEQ || b.Op == token.EQL)) {
+						return true
+					}
+				}
+			}
+			return false
 		}},
 		{"(*File).readFromWithConcurrency", "offset = firstErr.off on error, offset += read on success", func(st *ssa.Store) bool {
 			t := affineOf(st.Val)
